@@ -252,7 +252,9 @@ def rule_clean_parameters(rep: Report, repo: Repo, rule: str, r_uniform: Optiona
                       witness="#     indented code sample")
         # 3. optional single space drop
         drops = [a for n, a in ops[1:] if n == "slice"]
-        space_true = any(c[0] == "cmp" and c[1] == "==" and c[3] == const(" ") and c[2][0] == "sub" and c[2][2] == const(0) and v
+        space_true = any((c[0] == "cmp" and c[1] == "==" and c[3] == const(" ") and c[2][0] == "sub" and c[2][2] == const(0) and v) or
+                         (c[0] == "truthy" and c[1][0] == "call" and c[1][1][0] == "attr" and c[1][1][2] == "startswith"
+                          and c[1][2] == (const(" "),) and v)
                          for c, v in oc["conds"])
         nonempty_true = any(c[0] in ("truthy", "nonempty") and v or (c[0] == "lencmp" and v) for c, v in oc["conds"])
         if drops:
@@ -404,22 +406,39 @@ def rule_document_order(rep: Report, repo: Repo, r_order: str, r_module: Optiona
         if ins and rend:
             rep.check(o.effects.index(ins[0]) < o.effects.index(("loop", [l for l in loops if o.state.loops[l] is rend[0][0]][0])), r_order, where,
                       "module entry inserted before rendering", "the module entry is inserted after the entries were rendered")
-    # title override in the module loop (C12-R5)
-    src = norm(fn)
-    title_override = [n for n in walk_no_nested(fn) if isinstance(n, ast.Assign) and norm(n.targets[0]) == "self.writer.title"]
-    ok_t = len(title_override) == 1 and title_override[0].value is not None and norm(title_override[0].value).endswith(".name")
-    rep.check(ok_t, mrule, where, f"self.writer.title = {norm(title_override[0].value) if title_override else None}",
-              "a named module doccomment does not become the page title (or something else does)", witness="#[[[ @module my.name #]]")
-    if title_override:
-        m = repo.module("cminx.documenter")
-        from ..model import guards_of
-        gs = guards_of(fn, title_override[0], m.parents)
-        txt = " ; ".join(("" if g.polarity else "not ") + norm(g.test) for g in gs)
-        rep.check(".name is None" in txt and "len(" in txt and ".name) == 0" in txt and txt.startswith("not "), mrule, where,
-                  f"title override guarded by: {txt[:80]}", "the title override is not limited to module doccomments that carry a name")
-    dflt = [n for n in walk_no_nested(fn) if isinstance(n, ast.Assign) and norm(n.targets[0]).endswith(".name")
-            and norm(n.value) == "self.module_name"]
-    rep.check(len(dflt) == 1, mrule, where, "unnamed module doccomment takes self.module_name",
+    # title override in the module loop (C12-R5): judged on the loop summary, not on the text of the guard
+    title_paths, default_paths, both = 0, 0, 0
+    seen_loop = False
+    for o in outs:
+        for e in o.effects:
+            if e[0] != "loop":
+                continue
+            lp = o.state.loops[e[1]]
+            if "ModuleDocumentation" not in show(lp["iter"]):
+                continue
+            seen_loop = True
+            elem_name = ("attr", ("elem", e[1], None), "name")
+            for oc in lp["outcomes"]:
+                sets_title = any(x[0] == "store" and x[1] == attr(SELF, "writer") and x[2] == "title" and x[3] == elem_name for x in oc["effects"])
+                other_title = any(x[0] == "store" and x[2] == "title" and x[3] != elem_name for x in oc["effects"])
+                sets_default = any(x[0] == "store" and x[1] == ("elem", e[1], None) and x[2] == "name" and x[3] == attr(SELF, "module_name")
+                                   for x in oc["effects"])
+                depends = any(contains(c, elem_name) for c, _v in oc["conds"])
+                if other_title:
+                    both += 1
+                if sets_title and sets_default:
+                    both += 1
+                if sets_title and depends:
+                    title_paths += 1
+                elif sets_title:
+                    both += 1
+                if sets_default and depends:
+                    default_paths += 1
+        break
+    rep.check(seen_loop and title_paths >= 1 and both == 0, mrule, where, f"named module doccomment -> writer.title ({title_paths} path(s))",
+              "a named module doccomment does not become the page title exactly when it carries a name (or something else is written to the title)",
+              witness="#[[[ @module my.name #]]")
+    rep.check(seen_loop and default_paths >= 1, mrule, where, f"unnamed module doccomment -> self.module_name ({default_paths} path(s))",
               "an '@module' doccomment without a name does not fall back to the path-derived module name")
     # process(): passes the aggregator's list
     pfn = ci.methods.get("process")
@@ -460,14 +479,13 @@ def rule_writer_first_element(rep: Report, repo: Repo, rule: str) -> None:
     outs = ev.run_function(fn, {"self": SELF})
     okt = False
     desc = ""
+    from .writer_rules import string_parts, IT as _IT
     for o in outs:
         if o.kind == "return":
             v = o.value()
             desc = show(v).replace("\n", "\\n")
-            if v[0] == "foreach":
-                lp = o.state.loops[v[1]]
-                body = v[2]
-                okt = lp["iter"] == attr(SELF, "document") and body == ("fstr", ("elem", v[1], None), const("\n"))
+            parts = [p for p in string_parts(v, o) if p != const("")]
+            okt = parts == [("each", attr(SELF, "document"), [_IT, const("\n")])]
     rep.check(okt, rule, "cminx.rstwriter:RSTWriter.to_text", desc[:80],
               "the page text is not the document elements in order, each followed by a newline")
     rep.floor(rule, 3, "document structure facts")
@@ -603,52 +621,40 @@ def _alpha_dump(stmts: List[ast.stmt], rename_ctor: Dict[str, str]) -> str:
 
 
 def rule_siblings_agree(rep: Report, repo: Repo, rule: str) -> None:
-    rep.rule(rule, "process_ct_add_test and process_ct_add_section are equal up to renaming, the constructed class and message "
-                   "literals; process_add_test equals them on the NAME scan")
+    """C11-R2, as built: the comparison is made on the *evaluated* keyword scans (normal forms of what name / expect_fail
+    are bound to), not on the syntax of the processors, so that refactoring one sibling alone stays silent."""
+    rep.rule(rule, "the three test processors bind `name` to the same normalised NAME scan, and the two CMakeTest processors bind "
+                   "`expect_fail` to the same normalised EXPECTFAIL scan (compared on evaluated terms, not on syntax)")
+    from .bindings import _scan_info, entry_objects, good_rows, nf_for, _any_keyword
     lm = listener_model(repo)
-    ci = repo.cls(lm.cls)
-    a, b, c = ci.methods.get("process_ct_add_test"), ci.methods.get("process_ct_add_section"), ci.methods.get("process_add_test")
-    if not (a and b and c):
-        raise AnalysisError("anchor vanished: test processors")
-    body = lambda f: [s for s in f.body if not (isinstance(s, ast.Expr) and isinstance(s.value, ast.Constant))]
-    da = _alpha_dump(body(a), {"TestDocumentation": "CTOR"})
-    db = _alpha_dump(body(b), {"SectionDocumentation": "CTOR"})
-    rep.check(da == db, rule, f"{AGG}:{lm.cls}", "process_ct_add_test ~ process_ct_add_section",
-              "the two CMakeTest processors differ beyond naming: tests and sections read NAME/EXPECTFAIL differently",
-              witness="ct_add_section(NAME s EXPECTFAIL) vs ct_add_test(NAME t EXPECTFAIL)")
-
-    def scan(f):
-        for s in f.body:
-            if isinstance(s, ast.For):
-                out = []
-                for st in s.body:
-                    if isinstance(st, ast.If) and "EXPECTFAIL" in norm(st.test):
+    desc = {}
+    for k in ("ct_add_test", "ct_add_section", "add_test"):
+        for r in good_rows(lm, "DOC", k):
+            for c, f in entry_objects(lm, r):
+                d = {}
+                for fld in ("name", "expect_fail"):
+                    v = f.get(fld)
+                    if v is None or (isinstance(v, tuple) and v and v[0] == "unknown"):
                         continue
-                    out.append(st)
-                loop = copy.deepcopy(s)
-                loop.body = out
-                # the NAME branch only: ignore bookkeeping statements after the name assignment in the try body
-                return loop
-        return None
-    la, lc = scan(a), scan(c)
-    if la is None or lc is None:
-        rep.note(rule, f"{AGG}:{lm.cls}", "NAME scan of add_test ~ ct_add_test",
-                 "the processors do not scan inline (helper refactoring); the scans are judged by C11-R1 on the evaluated terms")
-        rep.floor(rule, 1, "sibling comparisons")
-        return
-    # compare the header and the NAME test, and the try-body's first statement
-    def key(loop):
-        t = next((st for st in loop.body if isinstance(st, ast.If) and "NAME" in norm(st.test)), None)
-        if t is None:
-            return None
-        first = t.body[0]
-        if isinstance(first, ast.Try):
-            first = first.body[0]
-        return _alpha_dump([ast.For(target=loop.target, iter=loop.iter, body=[ast.Pass()], orelse=[])], {}), \
-            _strip_names(norm(t.test)), _strip_names(norm(first))
-    ka, kc = key(la), key(lc)
-    rep.check(ka is not None and ka == kc, rule, f"{AGG}:{lm.cls}", f"NAME scan of add_test ~ ct_add_test: {kc[1:] if kc else None}",
-              "add_test looks up NAME differently from ct_add_test", witness="add_test(COMMAND x NAME t)")
+                    info = _scan_info(r, lm, v)
+                    if info is not None and not info.get("unknown"):
+                        # keep only the guarded assignments that matter: (conditions that are comparisons, value)
+                        norm_assigns = sorted(repr((sorted(repr((cc, vv)) for cc, vv in conds if cc[0] == "cmp" and "NAME" in repr(cc) or "EXPECTFAIL" in repr(cc)), val))
+                                              for conds, val, ex in info["assigns"] if not (ex and ex[0] in ("return", "raise")))
+                        d[fld] = ("scan", repr(info["iter"]), tuple(norm_assigns))
+                    else:
+                        nfv = nf_for(lm, r).nf(v)
+                        d[fld] = ("term", repr(nfv))
+                desc.setdefault(k, d)
+    a, b, c = desc.get("ct_add_test"), desc.get("ct_add_section"), desc.get("add_test")
+    if not (a and b and c):
+        raise AnalysisError("anchor vanished: test processors produce no entries")
+    rep.check(a.get("name") == b.get("name") and a.get("expect_fail") == b.get("expect_fail"), rule, f"{AGG}:{lm.cls}",
+              "ct_add_test ~ ct_add_section (evaluated NAME / EXPECTFAIL scans)",
+              "tests and sections read NAME or EXPECTFAIL differently", witness="ct_add_section(NAME s EXPECTFAIL) vs ct_add_test(NAME t EXPECTFAIL)")
+    # add_test may use another loop idiom; C11-R1 judges each scan against the specification, here only the kind is compared
+    rep.check((a.get("name") or ("",))[0] == (c.get("name") or ("",))[0], rule, f"{AGG}:{lm.cls}", "add_test ~ ct_add_test (kind of NAME lookup)",
+              "add_test does not look up NAME by a keyword scan like the CMakeTest processors")
     rep.floor(rule, 2, "sibling comparisons")
 
 
